@@ -144,7 +144,10 @@ def deep_merge_multi_update(dct, merge_dct):
                     '_multi_update': [
                         dct[k], merge_dct[k]]}
         else:
-            dct[k] = merge_dct[k]
+            # copy the dictionary structure: merge_dct belongs to the
+            # process that returned it, and later merges write into
+            # what is stored here
+            dct[k] = deep_copy_internal(merge_dct[k])
     return dct
 
 
